@@ -142,7 +142,7 @@ pub fn run(prop: &str, tier: &str, replay: Option<&str>) -> i32 {
     let keys = Keys { zoo: &zoo };
     let cap = if thorough { 1100 } else { 50 };
     let at = atoms();
-    let kids = [KeyIdSpec::Sha256, KeyIdSpec::Sha384, KeyIdSpec::Sha512, KeyIdSpec::Pre(vec![0xca, 0xfe, 0x01]), KeyIdSpec::Pre((0..32u8).map(|i| 0xff - i).collect()), KeyIdSpec::Pre((0..21u8).collect())];
+    let kids = [KeyIdSpec::Sha256, KeyIdSpec::Sha384, KeyIdSpec::Sha512, KeyIdSpec::Pre(vec![0xca, 0xfe, 0x01]), KeyIdSpec::Pre((0..32u8).map(|i| 0xff - i).collect()), KeyIdSpec::Pre((0..21u8).collect()), KeyIdSpec::Pre(vec![]), KeyIdSpec::Pre(vec![0])];
     let ca_z = keys.get(KeyKind::Ed25519, "_1");
     let leaf_z = keys.get(KeyKind::Ed25519, "_2");
     let ca_kp = rc_load(ca_z, Alg::Ed25519).unwrap();
@@ -179,7 +179,18 @@ pub fn run(prop: &str, tier: &str, replay: Option<&str>) -> i32 {
                 }
             }
         }
-        let sec = Section::new("rcgen-issuers/names x key-id methods", "issuer names = all push sequences of <= 2 (thorough 3) attributes over 6 types x 6 string kinds; 4x4 issuer/subject key-identifier methods for names of <= 1 attribute; real Ed25519 keys; leaf judged against the issuer certificate bytes and by OpenSSL + webpki").with_deadline(cap);
+        // every pair over ALL key-identifier values (three digests; pre-specified of 3, 32, 21, 0 and 1 octets) for the empty
+        // name and the first two one-attribute names
+        for n in names.iter().take(3) {
+            for i in 0..kids.len() {
+                for s in 0..kids.len() {
+                    if i >= 4 || s >= 4 {
+                        cases.push((n.clone(), i, s));
+                    }
+                }
+            }
+        }
+        let sec = Section::new("rcgen-issuers/names x key-id methods", "issuer names = all push sequences of <= 2 (thorough 3) attributes over 6 types x 6 string kinds; 4x4 issuer/subject key-identifier methods for names of <= 1 attribute, all 8x8 (pre-specified identifiers of 0, 1, 3, 21, 32 octets) for three names; real Ed25519 keys; leaf judged against the issuer certificate bytes and by OpenSSL + webpki").with_deadline(cap);
         run::sweep_cases(&sec, &cases, &|c| format!("issuer dn={:?} issuer kid={:?} subject kid={:?}", c.0.iter().map(|i| format!("{:?}/{:?}", at[*i].0, at[*i].1)).collect::<Vec<_>>(), kids[c.1], kids[c.2]), &|c| {
             let mut out = Outcome::default();
             let dn = DnSpec(c.0.iter().map(|i| at[*i].clone()).collect());
@@ -416,11 +427,24 @@ pub fn run(prop: &str, tier: &str, replay: Option<&str>) -> i32 {
                 cases.push((i, code));
             }
         }
+        // certificates that are no CA by their basic constraints (none at all / cA FALSE), with and without an identifier
+        for i in 0..names.len().min(6) {
+            for fl in [10000usize, 20000] {
+                for l in [0usize, 20, 32, 1, 1256] {
+                    cases.push((i, fl + l));
+                }
+            }
+        }
         let signer = ossl_signer(ca_z.pkey.clone(), Alg::Ed25519);
         let sec = Section::new("imported-issuers/reference-built CA", "foreign CA certificates built with the reference DER writer for every name (<= 2, thorough 3 RDNs over 36 atoms incl. repeated types; multi-valued RDNs; empty), without SKI and with SKIs of 20 and 32 bytes (first names: 1..128 bytes, and SKIs that are SHA-1 / SHA-2 digests of the key bits), signed by a fixture key; imported (DER and PEM), re-issued, leaf judged against the ORIGINAL CA bytes").with_deadline(cap);
         run::sweep_cases(&sec, &cases, &|c| format!("CA subject [{}] ski={}", names[c.0].label(), c.1), &|c| {
             let mut out = Outcome::default();
             let name = &names[c.0];
+            // 10000s digit: 0 = a CA by basicConstraints; 1 = no basicConstraints at all (a legacy CA: keyCertSign only);
+            // 2 = basicConstraints present with cA FALSE. In the last two the issuer is no CA for a validator, but
+            // what is issued under the imported parameters still names it and points at the identifier it carries
+            let flavour = c.1 / 10000;
+            let c = &(c.0, c.1 % 10000);
             let ski: Vec<u8> = match c.1 {
                 1001 => openssl::hash::hash(openssl::hash::MessageDigest::sha1(), &ca_z.raw_pub).unwrap().to_vec(),
                 1256 | 1384 | 1512 => ossl_sha((c.1 - 1000) as u32, &ca_z.raw_pub)[..20].to_vec(),
@@ -428,6 +452,13 @@ pub fn run(prop: &str, tier: &str, replay: Option<&str>) -> i32 {
                 n => ossl_sha(512, &ca_z.spki).iter().cycle().take(n).cloned().collect(),
             };
             let mut exts = vec![RefExt::new(OID_BC, true, ext_bc(true, None, false)), RefExt::new(OID_KU, true, ext_ku(ku_bits(&[5, 6]), None))];
+            match flavour {
+                1 => {
+                    exts.remove(0);
+                }
+                2 => exts[0] = RefExt::new(OID_BC, true, ext_bc(false, None, false)),
+                _ => {}
+            }
             if c.1 > 0 {
                 exts.push(RefExt::new(OID_SKI, false, ext_ski(&ski)));
             }
@@ -469,19 +500,19 @@ pub fn run(prop: &str, tier: &str, replay: Option<&str>) -> i32 {
                 Ok(Ok((leaf_der, leaf2_der, ca2_der, ca2_kid))) => {
                     // the CA re-issued from the imported parameters identifies itself as the original did
                     if c.1 > 0 {
-                        let ski2 = decode_cert(&ca2_der).value.and_then(|a| {
+                        let ski2 = if flavour == 1 { Some(ski.clone()) } else { decode_cert(&ca2_der).value.and_then(|a| {
                             a.extensions.iter().flatten().find_map(|e| match &e.parsed {
                                 ExtVal::Ski(k) => Some(k.clone()),
                                 _ => None,
                             })
-                        });
+                        }) };
                         if ski2.as_deref() != Some(ski.as_slice()) || ca2_kid != ski {
                             f.push(Finding::new("IMPORT-REISSUE-SKI", "re-issued CA", format!("the original CA carries the subject key identifier {:02x?}; the CA re-issued from the imported parameters carries {:02x?} (key_identifier() {:02x?})", ski, ski2, ca2_kid)));
                         }
                     }
-                    judge_chain(&leaf_der, &ca_der, c.1 > 0, true, true, &mut f);
+                    judge_chain(&leaf_der, &ca_der, c.1 > 0, flavour == 0, true, &mut f);
                     let mut f2 = Vec::new();
-                    judge_chain(&leaf2_der, &ca_der, c.1 > 0, true, true, &mut f2);
+                    judge_chain(&leaf2_der, &ca_der, c.1 > 0, flavour == 0, true, &mut f2);
                     f.extend(f2.into_iter().map(|mut x| {
                         x.locus = format!("{} (issued from a parsed CSR)", x.locus);
                         x
